@@ -29,6 +29,9 @@ def powHashTrits (data : List UInt8) (nonce : Nat) : List Int :=
   (s.squeeze 1).2
 
 def ops : List (String × Handler) := [
+  -- hypothesis of the v1 soundness theorem, exercised on the implementation: z ↦ math.Pow(3,z)/len is
+  -- strictly increasing on 0..243 for this len.  The model side has nothing to compute.
+  ("pow1.mono", fun _ => "mono"),
   ("pow1.check", fun
     | [l, h, n] => match planesOfHex l, planesOfHex h, n.toNat? with
       | some l, some h, some n => toString (checkV1 l h n)
